@@ -351,6 +351,59 @@ func c04(c *ev.Ctx) {
 			}
 		}
 	})
+	// a failing run between two objects (error, panic, arity mismatch, unknown function,
+	// inside and outside a user function): the next run still sees its own object
+	faults := []string{`return 1 / Zero;`, `return 1 % Zero;`, `panic("x");`, `return chk(1, 2);`, `return chk();`, `return nosuch(1);`, `return [1]["k"];`,
+		`return inner(1 / Zero);`, `return deep(3);`, `foreach q in [1,2] { foreach z in [3] { return chk(q, z); } }`, `foreach q in Name { panic(q); }`}
+	nf := c.Pick(800, 30000)
+	c.ParFor(nf, func(i int) {
+		id := fmt.Sprintf("fault-between/%d", i)
+		if !c.Want(id) {
+			return
+		}
+		r := c.Rng("faultbetween", i)
+		fault := faults[r.Intn(len(faults))]
+		script := "function chk(a) { return a; } function inner(a) { return chk(a); } function deep(n) { if (n <= 0) { return chk(1, 2, 3); } return deep(n - 1); } " +
+			"if (Bad) { " + fault + " } return [chk(Name), inner(Count), Tags];"
+		evr, err := eng.New(script, eng.Options{NoOptimize: r.Intn(2) == 0})
+		if err != nil {
+			c.Violation(id, "fault script rejected", map[string]interface{}{"summary": err.Error(), "script": script})
+			return
+		}
+		c.Case(script, true)
+		for step := 0; step < 6; step++ {
+			bad := r.Intn(3) == 0
+			name := fmt.Sprintf("n%d", r.Intn(1000))
+			cnt := r.Intn(1000)
+			tags := []interface{}{fmt.Sprintf("t%d", r.Intn(100))}
+			var obj interface{}
+			if r.Intn(2) == 0 {
+				obj = map[string]interface{}{"Bad": bad, "Zero": 0, "Name": name, "Count": cnt, "Tags": tags}
+			} else {
+				obj = &struct {
+					Bad   bool
+					Zero  int
+					Name  string
+					Count int
+					Tags  []interface{}
+				}{bad, 0, name, cnt, tags}
+			}
+			o := evr.Exec(obj)
+			if bad {
+				if o.Err == nil {
+					c.Violation(id, "fault did not fail", map[string]interface{}{"summary": fmt.Sprintf("%s with Bad=true returned %s", script, o.Desc()), "script": script})
+					return
+				}
+				continue
+			}
+			want := fmt.Sprintf("ARRAY:[%s, %d, [%s]]", name, cnt, tags[0])
+			if o.Desc() != want {
+				c.Violation(id, "a run after a failed run sees the wrong object", map[string]interface{}{
+					"summary": fmt.Sprintf("step %d: %s on {Name:%s Count:%d Tags:%v} gives %s %s, expected %s", step+1, script, name, cnt, tags, o.Desc(), errText(o.Err), want), "script": script})
+				return
+			}
+		}
+	})
 	for i, tc := range []struct{ script, want string }{
 		{`return Name;`, "STRING:var"}, {`Name = "assigned"; return Name;`, "STRING:assigned"}, {`return [Name, Count];`, "ARRAY:[var, 3]"}, {`return $Name;`, "STRING:var"},
 		{`c = Count; return Name;`, "STRING:var"}, {`c = Count; d = Absent; return [c, Name, $Name];`, "ARRAY:[3, var, var]"},
